@@ -149,6 +149,14 @@ impl<T: Write + Read + Seek> E57Writer<T> {
     }
 }
 
+#[cfg(e57_verif)]
+impl<T: Write + Read + Seek> E57Writer<T> {
+    /// Verification hook: access to the underlying device.
+    pub fn verif_device(&mut self) -> &mut T {
+        self.writer.verif_device()
+    }
+}
+
 impl E57Writer<File> {
     /// Creates an E57 writer instance from a Path.
     pub fn from_file(path: impl AsRef<Path>, guid: &str) -> Result<Self> {
